@@ -1033,6 +1033,19 @@ impl LiveActor {
         self.running_sync_connect.detach_all();
         started
     }
+    /// the real `start_sync` without bootstrap peers (opens the replica for sync, joins the gossip topic)
+    pub async fn verif_start_sync(&mut self, namespace: NamespaceId) -> bool { self.start_sync(namespace, vec![]).await.is_ok() }
+    /// the real `leave` (subscribers are kept)
+    pub async fn verif_leave(&mut self, namespace: NamespaceId) -> bool { self.leave(namespace, false).await.is_ok() }
+    /// a content download for `hash` is pending for the document
+    pub fn verif_queue_hash(&mut self, namespace: NamespaceId, hash: Hash) { self.queued_hashes.insert(hash, namespace) }
+    /// the real download-completion handler
+    pub async fn verif_download_ready(&mut self, namespace: NamespaceId, hash: Hash, ok: bool) {
+        let res = if ok { Ok(()) } else { Err(anyhow::anyhow!("download failed")) };
+        self.on_download_ready(namespace, hash, res).await
+    }
+    pub fn verif_is_syncing(&self, namespace: &NamespaceId) -> bool { self.state.is_syncing(namespace) }
+    pub fn verif_sync_handle(&self) -> SyncHandle { self.sync.clone() }
     pub async fn verif_accept_finished(&mut self, res: Result<SyncFinished, AcceptError>) -> bool {
         let before = self.running_sync_connect.len();
         self.on_sync_via_accept_finished(res).await;
